@@ -229,17 +229,17 @@ theorem AccS_handleStrBosOverflow (cfg : Cfg) (p n : Nat) (hr : ∀ a, Cells p n
   AccS.of_Acc (Acc_handleStrBosOverflow' cfg p n hr hw) d
 
 /-- `CHK_DMAX_MAX` / `CHK_DEST_OVR_CLEAR`: with a known object size below `dmax` the first `destbos` cells are measured
-and cleared -/
-theorem AccS_chkDmaxClearG {α} (mk : Nat → α) (cfg : Cfg) (dest dmax : Nat) (b : Bos) (max : Nat) {k : Prog α}
+and cleared; the continuation runs with `dmax ≤ destbos` -/
+theorem AccS_chkDmaxClearG' {α} (mk : Nat → α) (cfg : Cfg) (dest dmax : Nat) (b : Bos) (max : Nat) {k : Prog α}
     (hpos : dmax ≠ 0) (hr : ∀ a, Cells dest dmax a → R a) (hw : ∀ a, Cells dest dmax a → W a)
-    (hk : AccS R W d k (fun _ _ => True)) :
+    (hk : (∀ bos, b = some bos → dmax ≤ bos) → AccS R W d k (fun _ _ => True)) :
     AccS R W d (chkDmaxClearG mk cfg dest dmax b max k) (fun _ _ => True) := by
   unfold chkDmaxClearG
   have h0 : W dest := hw _ ⟨by omega, by omega⟩
   split
   · split
     · exact AccS.handlerSBind _ (AccS.pure _ trivial)
-    · exact hk
+    · exact hk (fun _ h => by cases h)
   · rename_i bos
     split
     · rename_i hgt
@@ -247,13 +247,26 @@ theorem AccS_chkDmaxClearG {α} (mk : Nat → α) (cfg : Cfg) (dest dmax : Nat) 
       · exact AccS_errRet cfg dest bos _ _ (fun a ⟨h1, h2⟩ => hw a ⟨h1, by omega⟩) h0
       · exact AccS.bind (AccS_handleStrBosOverflow cfg dest bos
             (fun a ⟨h1, h2⟩ => hr a ⟨h1, by omega⟩) (fun a ⟨h1, h2⟩ => hw a ⟨h1, by omega⟩)) (fun _ _ _ => AccS.pure _ trivial)
-    · exact hk
+    · rename_i hle
+      exact hk (fun b' h => by cases h; omega)
+
+theorem AccS_chkDmaxClearG {α} (mk : Nat → α) (cfg : Cfg) (dest dmax : Nat) (b : Bos) (max : Nat) {k : Prog α}
+    (hpos : dmax ≠ 0) (hr : ∀ a, Cells dest dmax a → R a) (hw : ∀ a, Cells dest dmax a → W a)
+    (hk : AccS R W d k (fun _ _ => True)) :
+    AccS R W d (chkDmaxClearG mk cfg dest dmax b max k) (fun _ _ => True) :=
+  AccS_chkDmaxClearG' mk cfg dest dmax b max hpos hr hw (fun _ => hk)
+
+theorem AccS_chkDmaxClear' (cfg : Cfg) (dest dmax : Nat) (b : Bos) (max : Nat) {k : Prog Nat}
+    (hpos : dmax ≠ 0) (hr : ∀ a, Cells dest dmax a → R a) (hw : ∀ a, Cells dest dmax a → W a)
+    (hk : (∀ bos, b = some bos → dmax ≤ bos) → AccS R W d k (fun _ _ => True)) :
+    AccS R W d (chkDmaxClear cfg dest dmax b max k) (fun _ _ => True) := by
+  unfold chkDmaxClear; exact AccS_chkDmaxClearG' id cfg dest dmax b max hpos hr hw hk
 
 theorem AccS_chkDmaxClear (cfg : Cfg) (dest dmax : Nat) (b : Bos) (max : Nat) {k : Prog Nat}
     (hpos : dmax ≠ 0) (hr : ∀ a, Cells dest dmax a → R a) (hw : ∀ a, Cells dest dmax a → W a)
     (hk : AccS R W d k (fun _ _ => True)) :
-    AccS R W d (chkDmaxClear cfg dest dmax b max k) (fun _ _ => True) := by
-  unfold chkDmaxClear; exact AccS_chkDmaxClearG id cfg dest dmax b max hpos hr hw hk
+    AccS R W d (chkDmaxClear cfg dest dmax b max k) (fun _ _ => True) :=
+  AccS_chkDmaxClear' cfg dest dmax b max hpos hr hw (fun _ => hk)
 
 theorem AccS_chkDmaxW (dmax : Nat) (b : Bos) {k : Prog Nat} (hk : AccS R W d k (fun _ _ => True)) :
     AccS R W d (chkDmaxW dmax b k) (fun _ _ => True) := by
